@@ -358,6 +358,17 @@ fn parse_oracles<K: Kind>(ck: &mut Ck, a: &[&str], made: &Made<K::T>) {
     if let Made::Purl(p) = made {
         value_oracles::<K>(ck, p, true, Some(&s));
         c07_exact(ck, &s, p);
+        // C05: an accepted string has a syntactically valid type and only valid qualifier keys, in the documented alphabets
+        if let Some(raw) = raw_split(&s) {
+            if !valid_type(raw.ty) {
+                ck.fail("C05", format!("{:?} accepted although its type {:?} is syntactically invalid", s, raw.ty));
+            }
+        }
+        for (k, _) in p.qualifiers().iter() {
+            if !valid_key(k.as_str()) {
+                ck.fail("C05", format!("{:?} accepted although the qualifier key {:?} is invalid", s, k.as_str()));
+            }
+        }
     }
     let got = match made {
         Made::Purl(p) => show(p),
@@ -1258,13 +1269,19 @@ fn h_oracle(ck: &mut Ck, a: &[&str]) {
             ck.req("C14", main == "E Parse:Missing(name)", "emptied name not refused");
         }
         if let Some(f) = main_fields(main) {
-            if hook.contains('s') {
-                ck.req("C14", f[1] == h("Hook//Ns/"), "namespace written by the hook not reported");
+            // the last write of the hook program wins ('s' writes "Hook//Ns/", 'S' writes "//")
+            match hook.rfind(|c| c == 's' || c == 'S').map(|i| hook.as_bytes()[i]) {
+                Some(b's') => ck.req("C14", f[1] == h("Hook//Ns/"), "namespace written by the hook not reported"),
+                Some(_) => ck.req("C14", f[1] == h("//"), "namespace of slashes written by the hook not reported as written"),
+                None => {},
             }
             if hook.contains('V') && !hook[hook.find('V').unwrap()..].contains('v') {
                 ck.req("C14", f[3] == h("9%"), "version written by the hook not reported");
             }
-            if hook.contains('u') {
+            if hook.contains('U') && !hook[hook.rfind('U').unwrap()..].contains('u') {
+                ck.req("C14", f[5] == h("./c//.."), "subpath written by the hook not reported as written");
+            }
+            if hook.contains('u') && !hook[hook.rfind('u').unwrap()..].contains('U') {
                 ck.req("C14", f[5] == h("a/../b"), "subpath written by the hook not reported");
             }
             let q: Vec<&str> = if f[4] == "-" { vec![] } else { f[4].split(';').collect() };
